@@ -6,8 +6,11 @@ cd /repo || exit 9
 if [ -n "$(git status --porcelain)" ]; then echo "repo not clean"; exit 9; fi
 git apply "$patch" || { echo "patch does not apply"; exit 9; }
 cd /verif
+cp evidence/$pid.json /tmp/evidence-$pid.bak 2>/dev/null
 VERIF_SEED="${VERIF_SEED:-0}" ./check "$pid" --tier "$tier"
 rc=$?
+# the evidence file describes runs against the unchanged tree only
+mv /tmp/evidence-$pid.bak evidence/$pid.json 2>/dev/null
 git -C /repo checkout -- .
 git -C /repo clean -fdq
 echo "seedrun: property=$pid exit=$rc"
